@@ -7,6 +7,8 @@ run_part(ck, tier) adds to the vlib.Check of C15:
     mpt_meta_buffer interpose the C definitions for every caller),
   * binding A: every transition of the model replayed into drv/creators_c.c (+ creators.cpp) against the shared
     libraries of the tree under test; allocation seam = malloc/free hooks of the sanitizer runtime,
+    the transitions with an injected allocation failure (arg.fail) go to a third executable (creators_seam: the allocating
+    sources of mptcore compiled in with malloc renamed) and are swept over the allocation that is refused,
   * binding B: seeded call sequences recorded from the real code and validated by TLC against Trace_Creators.
 """
 import json
@@ -25,6 +27,12 @@ CFG = {
 }
 T_NH, T_NOBJ = 4, 24      # constants of Trace_Creators.cfg
 VLOCK = threading.Lock()
+# sources of mptcore that allocate for the producers (and the producers themselves): compiled into "creators_seam" with
+# malloc/realloc/calloc renamed, so that the k-th allocation of a call can be refused
+SEAM_SOURCES = ("mptcore/node/node_new.c", "mptcore/node/node_clone.c", "mptcore/node/node_destroy.c", "mptcore/misc/identifier.c",
+                "mptcore/meta/meta_new.c", "mptcore/meta/meta_geninfo.c", "mptcore/meta/meta_set.c", "mptcore/array/meta_buffer.c",
+                "mptcore/array/buffer_alloc.c", "mptcore/config/node_assign.c")
+MAXK = 8      # allocations per call the failure sweep follows
 
 
 def enabled():
@@ -75,6 +83,18 @@ def build():
                 "link (cxx)")
             os.replace(exe + ".tmp%d" % pid, exe)
             out["cxx"] = exe
+            # allocation failure: the C creators again, their allocating sources compiled in through the seam
+            run(["clang"] + san + ["-Wno-unused-function", "-Wno-deprecated", "-DX30_SEAM", "-c", src, "-o", oc] + inc, "compile (seam)")
+            sobjs = vseam.compile_c_objects("x30seam", SEAM_SOURCES)
+            try:
+                exe = os.path.join(odir, "creators_seam")
+                run(["clang"] + san + ["-rdynamic", oc] + sobjs + libs(["mptcore"]) + ["-lm", "-ldl", "-o", exe + ".tmp%d" % pid], "link (seam)")
+                os.replace(exe + ".tmp%d" % pid, exe)
+                out["seam"] = exe
+            finally:
+                for o in sobjs:
+                    if os.path.exists(o):
+                        os.unlink(o)
         finally:
             for o in (oc, ox, op):
                 if os.path.exists(o):
@@ -86,11 +106,22 @@ def kind_of(beh):
     return (beh[0].get("arg") or {}).get("kind", "?")
 
 
+def injected(beh):
+    return any((st.get("arg") or {}).get("fail") for st in beh)
+
+
+def exe_of(beh):
+    """allocation failures are offered by the seam executable (creator c) only"""
+    if injected(beh):
+        return "seam" if kind_of(beh) == "c" else None
+    return kind_of(beh)
+
+
 def run_behaviours(exes, behs, nproc=6):
     """Every behaviour goes to the executable of its creator; behaviour ids stay those of the given list."""
     recs = []
     for k, exe in exes.items():
-        idx = [b for b, beh in enumerate(behs) if kind_of(beh) == k]
+        idx = [b for b, beh in enumerate(behs) if exe_of(beh) == k]
         part = vseam.run_parallel(exe, [behs[b] for b in idx], nproc=nproc)
         for r in part:
             if isinstance(r.get("b"), int) and 0 <= r["b"] < len(idx):
@@ -105,6 +136,13 @@ def match(exp, obs, step=None, rec=None, prev=None):
     call (order free), what every node holds and hangs under, nothing left when nothing lives."""
     if obs.get("ret") == "baddrv":
         return "driver: step not executable"
+    if step is not None and (step.get("arg") or {}).get("fail"):
+        # injected allocation failure: judged when it fired and the call answered "refused" (the statement is silent
+        # about a call that goes on without the storage; the call without failure is replayed on its own)
+        if obs.get("badfree"):
+            return "badfree: %s" % obs.get("badfree")
+        if not obs.get("fired") or obs.get("ret") != "refused":
+            return vlib.STOP
     if exp["ret"] != "any" and obs.get("ret") != exp["ret"]:
         return "ret: expected %s, observed %s" % (exp["ret"], obs.get("ret"))
     if obs.get("alive") != exp["alive"]:
@@ -124,6 +162,8 @@ def sig_of(beh, i, why):
     st = beh[i]
     arg = st.get("arg") or {}
     cls = arg.get("sz") or arg.get("via") or arg.get("nm") or "-"
+    if arg.get("fail"):
+        cls += ",nomem"
     if arg.get("p"):
         cls = "%s,%s" % (arg["p"], cls)
     key = why.lower() if why in ("Crash", "Hang", "Garbled", "Missing") else why.split(":")[0].split(" ")[0].lower()
@@ -459,6 +499,7 @@ def run_part(ck, tier):
     tjob = pool.submit(trace_job)
 
     seen, perkind, samples = {}, {}, []
+    nt_inj = set()
     behs = []
     for g in cfg["gen"]:
         path = os.path.join(vlib.ensure(os.path.join(vlib.WORK, "x30")), "%s-%d.out" % (g[:-4], os.getpid()))
@@ -472,9 +513,45 @@ def run_part(ck, tier):
                 os.unlink(path)
         vlib.log("x30 %s: %d behaviours exported in %.1fs" % (g, len(part), gen.wall))
         behs += part
+    allb = behs
+    inj = [b for b in allb if injected(b) and exe_of(b)]
+    behs = [b for b in allb if not injected(b)]
     recs = run_behaviours(exes, behs, nproc=6)
     by = vlib.group_records(recs)
     mms = []
+    # allocation failure sweep: arg.fail = k for every k the call reaches
+    todo, fired_total, reached = inj, 0, {}
+    for k in range(1, MAXK + 1):
+        if not todo:
+            break
+        cur = [[dict(st, arg=dict(st["arg"], fail=k)) if (st.get("arg") or {}).get("fail") else st for st in beh] for beh in todo]
+        r3 = run_behaviours(exes, cur, nproc=6)
+        by3 = vlib.group_records(r3)
+        for mm in vlib.compare(cur, r3, match):
+            beh = cur[mm["b"]]
+            sig = sig_of(beh, mm["i"], mm["why"])
+            seen[sig] = seen.get(sig, 0) + 1
+            if seen[sig] <= 2:
+                with VLOCK:
+                    ck.violation(sig, {"x30": True, "binding": "A(replay, allocation failure %d)" % k, "behaviour": beh[:mm["i"] + 2],
+                                       "step": mm["i"], "why": mm["why"], "record": mm["rec"]})
+        nxt = []
+        for b, beh in enumerate(cur):
+            fs = [r for r in by3.get(b, []) if (r.get("obs") or {}).get("fired")]
+            if fs:
+                fired_total += 1
+                a = fs[0].get("a")
+                reached[a] = reached.get(a, 0) + 1
+                if (fs[0].get("obs") or {}).get("ret") == "refused":
+                    nt_inj.add(callseq(beh))
+                nxt.append(todo[b])
+        ck.cov["evaluations"] += len(cur)
+        todo = nxt
+    ck.notes["x30_nomem_behaviours"] = len(inj)
+    ck.notes["x30_nomem_failures_met"] = fired_total
+    ck.notes["x30_nomem_failures_met_by_action"] = reached
+    ck.notes["x30_nomem_sweep_open_at_maxk"] = len(todo)
+    vlib.log("x30 allocation failure: %d behaviours, %d failures met %s" % (len(inj), fired_total, reached))
     for mm in vlib.compare(behs, recs, match):
         if mm["why"] != "Hang":                        # a hang may be the machine: once more on its own
             mms.append(mm)
@@ -509,6 +586,7 @@ def run_part(ck, tier):
         with VLOCK:
             ck.violation(sig, det)
     nt |= keys
+    nt |= nt_inj
     ck.cov["transitions"] += trans
     ck.cov["evaluations"] += len(hist)
     ck.cov["traces_validated_against_impl"] += acc
